@@ -228,7 +228,7 @@ def judge_program(case, rec: Recorder | None = None, check='program', localize=T
                 d = Disc(f'C16/shared-token/{fam}/{kk}', exp[1], _show(obs), f'{v}: {expr}')
             elif localize:
                 for sub in sorted(base._closed_subexprs(ast), key=lambda s: len(canon(s))):
-                    if sub[0] in ('ref', 'inline', 'array'):
+                    if sub[0] in ('ref', 'inline', 'array', 'step') or _implicit_focus(sub):
                         continue
                     ds = judge_program({'ast': sub, 'v': v}, None, check, localize=False)
                     if ds:
@@ -252,6 +252,12 @@ def judge_program(case, rec: Recorder | None = None, check='program', localize=T
                                                or ('hof' in pcs and 'closure-captures-variable' in pcs))
         rec.case([v, expr], nontrivial=nontrivial, sample={'check': check, 'v': v, 'expr': expr}, classes=cls)
     return discs
+
+
+def _implicit_focus(n):
+    """the expression reads the focus through a child step or name()/string() without argument (the closed-
+    subexpression test of C08 does not know these forms, so they are not used to localise a failure)"""
+    return any(m[0] == 'step' or (m[0] == 'call' and m[1] in ('name', 'string') and not m[2]) for m in nodes(n))
 
 
 def _family(ip):
